@@ -23,8 +23,8 @@ for out in sorted(glob.glob('/tmp/wt/C*-out')) + sorted(glob.glob('/tmp/wt2/C*-o
         os.makedirs(d, exist_ok=True)
         shutil.copy(os.path.join(out, f'patch{n}.diff'), os.path.join(d, 'patch.diff'))
         shutil.copy(os.path.join(out, f'demo{n}.rs'), os.path.join(d, 'demo.rs'))
-        notes = open(os.path.join(out, f'notes{n}.md')).read() if os.path.exists(os.path.join(out, f'notes{n}.md')) else ''
-        detail = open(os.path.join(out, f'detail{n}.txt')).read().strip() if os.path.exists(os.path.join(out, f'detail{n}.txt')) else ''
+        notes = open(os.path.join(out, f'notes{n}.md'), errors='replace').read() if os.path.exists(os.path.join(out, f'notes{n}.md')) else ''
+        detail = open(os.path.join(out, f'detail{n}.txt'), errors='replace').read().strip() if os.path.exists(os.path.join(out, f'detail{n}.txt')) else ''
         files = sorted(set(re.findall(r'^\+\+\+ b/(\S+)', open(os.path.join(d, 'patch.diff')).read(), re.M)))
         meta = {
             'breaks_property': pid,
